@@ -29,7 +29,7 @@ TIERS = {
 }
 
 TRACE_UNIV = dict(macs=["m%d" % i for i in range(1, 9)], pool=list(range(1, 9)), outs=[9, 10], gw=0, far=11,
-                  reqhosts=["", "h1", "h2", "h3"], stathosts=["", "h1", "h2", "h4"])
+                  reqhosts=["", "h1", "h2", "h3"], stathosts=["", "h1", "h2", "h4"], leaset=4)
 
 
 def parse_cfg(name):
@@ -49,7 +49,7 @@ def parse_cfg(name):
         return int(m.group(1))
 
     return dict(macs=setof("Macs"), pool=setof("Pool"), outs=setof("Outs"), gw=intof("GW"), far=intof("Far"),
-                reqhosts=setof("ReqHosts"), stathosts=setof("StaticHosts"))
+                reqhosts=setof("ReqHosts"), stathosts=setof("StaticHosts"), leaset=intof("LeaseT"))
 
 
 def scratch(ctx):
@@ -118,7 +118,7 @@ def classify(rec):
 
     if act in ("AddStatic", "UpdateStatic", "Restart") and why == "structures" and newprob == {"bitset:+0"}:
         # a reservation outside the range marks offset 0 of the range as leased
-        if any(l[2] == 3 and l[1] in outs for l in ls) and not any(l[1] == pool0 for l in ls):
+        if any(l[2] == -1 and l[1] in outs for l in ls) and not any(l[1] == pool0 for l in ls):
             return "static-outside-pool-marks-offset0"
     if act == "Discover" and "bitset:+0" in srcprob and why == "state" and reply in ("nak", "none") \
             and _ms(ls) == _ms(src) and want and all(w["K"] == "offer" for w in want) \
@@ -131,7 +131,7 @@ def classify(rec):
         # rmDynamicLease skips the element that follows a removed one: a lease
         # of the same client / on the same address survives next to the new
         # reservation (it should have been evicted, or have blocked the call)
-        ns = (a["m"], a["a"], 3, a["h"])
+        ns = (a["m"], a["a"], -1, a["h"])
         rest = [tuple(l) for l in ls]
         if ns in rest:
             rest.remove(ns)
@@ -147,7 +147,7 @@ def classify(rec):
                     ok = False
             removed = srcl
             survivors = [l for l in rest if l[0] == a["m"] or l[1] == a["a"]]
-            if ok and survivors and all(r[2] < 2 and (r[0] == a["m"] or r[1] == a["a"]) for r in removed):
+            if ok and survivors and all(r[2] >= 0 and (r[0] == a["m"] or r[1] == a["a"]) for r in removed):
                 return "addstatic-leaves-conflicting-lease"
     if act == "AddStatic" and why == "state" and reply == "err" \
             and not (newprob - {"disk:differs", "hostindex:extra"}):
@@ -156,7 +156,7 @@ def classify(rec):
         came = _minus(ls, src)
         ok = bool(gone)
         for g in gone:
-            dropped = g[2] < 2 and (g[0] == a["m"] or g[1] == a["a"])
+            dropped = g[2] >= 0 and (g[0] == a["m"] or g[1] == a["a"])
             renamed = a["h"] != "" and g[3] == a["h"] and (g[0], g[1], g[2], "") in came
             if renamed:
                 came.remove((g[0], g[1], g[2], ""))
@@ -164,11 +164,11 @@ def classify(rec):
         if ok and not came:
             return "addstatic-error-after-mutation"
 
-    static_out = any(l[2] == 3 and l[1] in outs for l in ls) and not any(l[1] == pool0 for l in ls)
+    static_out = any(l[2] == -1 and l[1] in outs for l in ls) and not any(l[1] == pool0 for l in ls)
     if act == "Restart" and why == "state" and not (newprob - {"disk:differs"} - ({"bitset:+0"} if static_out else set())):
         # dynamic leases without a host name come back with a generated one
         disk = rec.get("srcdisk") or []
-        want_ls = [[l[0], l[1], l[2], ("g%d" % l[1]) if (l[2] < 2 and l[3] == "") else l[3]] for l in disk]
+        want_ls = [[l[0], l[1], l[2], ("g%d" % l[1]) if (l[2] >= 0 and l[3] == "") else l[3]] for l in disk]
         if _ms(want_ls) == _ms(ls) and _ms(ls) != _ms(disk):
             return "restart-names-unacked-lease"
     return None
@@ -268,7 +268,7 @@ def trace(ctx, opts, counts):
         j = i
         while not rows[j]["reset"]:
             j -= 1
-        want = [{"Same": w[0], "Dst": lkey(w[1]), "K": w[2], "IP": w[3]} for w in b["want"]]
+        want = [{"Same": w[0], "Dst": lkey(w[1]), "K": w[2], "IP": w[3], "T": w[4]} for w in b["want"]]
         recs.append({"kind": "bad", "act": t["act"], "src": t["src"], "srcdisk": t["srcdisk"], "srcprob": t["srcprob"],
                      "want": want, "why": b["why"], "reply": t["out"],
                      "post": {"ls": t["dst"], "disk": t["disk"], "prob": t["prob"]},
@@ -407,7 +407,7 @@ def admitted(rec, got):
             continue
         k = o["K"]
         if k in ("offer", "ack"):
-            ok = r["k"] == k and r["ip"] == o["IP"]
+            ok = r["k"] == k and r["ip"] == o["IP"] and (k == "offer" or r.get("t", 0) == o.get("T", r.get("t", 0)))
         elif k == "refuse":
             ok = r["k"] in ("none", "nak")
         elif k == "any":
